@@ -362,6 +362,11 @@ def run(chk: Check, eng: Engine) -> None:
     chk.rule("R07-e", "invert() builds the dual connective/quantifier over inverted operands", floor=6)
     chk.rule("R07-f", "selector dispatch: `.` -> find_direct, `..` -> find; converter maps . .. [] {} * len to the search classes", floor=10)
     chk.not_decided.append("agreement with a reference semantics on generated constraint programs (value level)")
+    chk.rule("R07-g", "verdict memo keys distinguish different bindings: get_hash covers root, tree and the items of scope and local variables "
+             "(order included), so nested quantifiers never receive the verdict of another binding", floor=4)
+    from .c11 import gethash_rule
+
+    gethash_rule(chk, eng, "R07-g")
     rule_a(chk, eng)
     rule_bc(chk, eng)
     rule_d(chk, eng)
@@ -383,6 +388,8 @@ _EX = "src/fandango/constraints/exists.py"
 _IMP = "src/fandango/constraints/implication.py"
 _S = "src/fandango/language/search.py"
 MUTANTS = [
+    M("gethash-xor-fold", "src/fandango/constraints/base.py", "                tuple((scope or {}).items()),\n", "                GeneticBase._fold(scope),\n", "R07-g",
+      more=(("    def combinations(\n        self,", "    @staticmethod\n    def _fold(bindings: Any) -> int:\n        result = 0\n        for name, value in (bindings or {}).items():\n            result ^= hash(name) ^ hash(value)\n        return result\n\n    def combinations(\n        self,"),)),
     M("invert-greater-to-less", _FT, "            Comparison.GREATER: Comparison.LESS_EQUAL,", "            Comparison.GREATER: Comparison.LESS,", "R07-a"),
     M("compare-le-uses-lt", _FT, "                return bool(left <= right)", "                return bool(left < right)", "R07-a"),
     M("compare-swapped-operands", _FT, "                return bool(left > right)", "                return bool(right > left)", "R07-a"),
@@ -404,6 +411,7 @@ MUTANTS = [
     M("dot-and-dotdot-swapped", _CV, "        if ctx.DOT():\n            return AttributeSearch(", "        if ctx.DOTDOT():\n            return AttributeSearch(", "R07-f"),
 ]
 TWINS = [
+    M("twin-gethash-frozenset", "src/fandango/constraints/base.py", "                tuple((scope or {}).items()),\n", "                frozenset((scope or {}).items()),\n", None),
     M("twin-invert-table-order", _FT, "            Comparison.EQUAL: Comparison.NOT_EQUAL,\n            Comparison.NOT_EQUAL: Comparison.EQUAL,\n", "            Comparison.NOT_EQUAL: Comparison.EQUAL,\n            Comparison.EQUAL: Comparison.NOT_EQUAL,\n", None),
     M("twin-conjunction-comment", _CON, "                if not fitness.success:\n                    break", "                if not fitness.success:\n                    # first failure decides the conjunction\n                    break", None),
 ]
